@@ -145,7 +145,7 @@ class Run(object):
             f.write(script)
         try:
             p = subprocess.run([REAL_PY, tmp], capture_output=True, text=True, timeout=60,
-                               env=dict(os.environ, PYTHONPATH="/repo"))
+                               env=dict(os.environ, PYTHONPATH=os.environ.get("VERIF_REPO", "/repo")))
             out = p.stdout + p.stderr
             reproduced = expect_marker in p.stdout
         except subprocess.TimeoutExpired:
